@@ -106,11 +106,14 @@ def run(v, tier, seed):
         if not os.path.exists(os.path.join(vlib.SPEC, rc.FAMILY, "IndexTrace.cfg")): raise vlib.MachineryError("spec/Reflector/IndexTrace.cfg is missing")
         r = vlib.tlc("IndexTrace", "IndexTrace.cfg", rc.FAMILY, workers=1, timeout=(600 if tier == "quick" else 3000), env={"TRACE": tr}, keep_out=True, heap="6g")
         if r.error and not r.violated: raise vlib.MachineryError("IndexTrace: " + r.error)
+        m = re.search(r'"maxline", (\d+), "of", (\d+)', r.out)
         lines = [int(x) for x in re.findall(r"^/\\ l = (\d+)", r.out, re.M)]
+        verdict = r.violated or ("NotAccepted" if (m and int(m.group(1)) == int(m.group(2)) + 1) else "stuck")
+        line = (max(lines) - 1) if lines else (int(m.group(1)) if m else None)
         r.out = ""
-        return rows, r.violated, (max(lines) - 1 if lines else None), tr
+        return rows, verdict, line, tr
 
-    nh, nc, nt = (1200, 100, 40) if tier == "quick" else (40000, 120, 600)
+    nh, nc, nt = (500, 200, 20) if tier == "quick" else (12000, 300, 120)      # histories, commands per history, histories logged for TLC
     big = {}
     if tier == "thorough": big["two3"] = insts.pop("two3")     # 2.8 million transitions: model-checked, not printed
     with cf.ThreadPoolExecutor(max_workers=(5 if tier == "quick" else 4)) as ex:
